@@ -79,6 +79,10 @@ def gen(rng, tier):
             cuts = sorted(cuts)
         for n in cuts:
             out.append(dict(spec=spec, cut=n))
+        if fi == 0:
+            # the same prefixes opened for update (mode r+): nothing is fabricated, the file on disk keeps its size
+            for n in cuts[::3]:
+                out.append(dict(spec=spec, cut=n, mode='r+'))
     # slab formats
     fmts = ['temperature', 'height_pressure', rng.choice(['one3d', 'humidity', 'vertical_diffusivity'])]
     if tier != 'quick':
@@ -167,6 +171,9 @@ def gen(rng, tier):
             out.append(dict(family='bpch', spec=c, cut=n, mode='r+' if n % 2 else 'r'))
             if n in marks or n % 5 == 0:
                 out.append(dict(family='bpch', spec=c, cut=n, mode='r', entry='master'))
+            if c['nt'] >= 2 and n in marks[3:]:
+                # the documented option timeslice as a list of step numbers, the last step of the full file among them
+                out.append(dict(family='bpch', spec=c, cut=n, mode='r', timeslice=[0, c['nt'] - 1]))
     return out
 
 
@@ -218,14 +225,47 @@ def _wind_full(spec):
     return _CACHE[key]
 
 
+class _ReadError(Exception):
+    """a reader raised on a prefix: the exception and the size the file on disk has afterwards"""
+    def __init__(self, e, size_after):
+        Exception.__init__(self, str(e))
+        self.name, self.size_after = type(e).__name__, size_after
+
+
+def _uamiv_read(b, mode):
+    """the gridded Memmap reader opened in a given mode on a file of its own"""
+    from PseudoNetCDF.camxfiles.uamiv.Memmap import uamiv
+    p = os.path.join(camx.tmpdir(), 'c14u_%d_%d.bin' % (os.getpid(), np.random.randint(1 << 30)))
+    open(p, 'wb').write(b)
+    try:
+        try:
+            with lib.pnc_warnings():
+                f = uamiv(p, mode=mode)
+                v = camx.view_of_reader(f)
+            del f
+        except lib.HarnessError:
+            raise
+        except Exception as e:
+            raise _ReadError(e, os.path.getsize(p))
+        v['size_after'] = os.path.getsize(p)
+        return v
+    finally:
+        os.remove(p)
+
+
 def _bnd_read(spec, b, mode='r'):
     from PseudoNetCDF.camxfiles.lateral_boundary.Memmap import lateral_boundary
     p = os.path.join(camx.tmpdir(), 'c14l_%d_%d.bin' % (os.getpid(), np.random.randint(1 << 30)))
     open(p, 'wb').write(b)
     try:
-        f = lateral_boundary(p, mode=mode)
-        v = S.bnd_view(f, spec)
-        del f
+        try:
+            f = lateral_boundary(p, mode=mode)
+            v = S.bnd_view(f, spec)
+            del f
+        except lib.HarnessError:
+            raise
+        except Exception as e:
+            raise _ReadError(e, os.path.getsize(p))
         v['size_after'] = os.path.getsize(p)
         return v
     finally:
@@ -259,7 +299,7 @@ def _oracle_bnd(case, res):
     return None
 
 
-def _bpch_read(spec, b, mode='r', entry='bpch1'):
+def _bpch_read(spec, b, mode='r', entry='bpch1', timeslice=None):
     from PseudoNetCDF.geoschemfiles._bpch import bpch1
     from . import c18
     if entry == 'master':
@@ -272,12 +312,14 @@ def _bpch_read(spec, b, mode='r', entry='bpch1'):
         B.tables(spec, d)
         with contextlib.redirect_stdout(io.StringIO()):
             try:
-                f = bpch1(p, noscale=True, mode=mode)
+                f = bpch1(p, noscale=True, mode=mode, **({} if timeslice is None else dict(timeslice=list(timeslice))))
                 v = c18.view(f, spec)
                 del f
-            finally:
-                size_after = os.path.getsize(p)
-            v['size_after'] = size_after
+            except lib.HarnessError:
+                raise
+            except Exception as e:
+                raise _ReadError(e, os.path.getsize(p))
+            v['size_after'] = os.path.getsize(p)
             return v
     finally:
         shutil.rmtree(d, True)
@@ -299,7 +341,7 @@ def impl(case):
             p = b[:case['cut']]
             try:
                 if fam == 'bpch':
-                    v = _bpch_read(case['spec'], p, case.get('mode', 'r'), case.get('entry', 'bpch1'))
+                    v = _bpch_read(case['spec'], p, case.get('mode', 'r'), case.get('entry', 'bpch1'), case.get('timeslice'))
                 elif fam == 'bnd':
                     v = _bnd_read(case['spec'], p, case.get('mode', 'r'))
                 else:
@@ -307,15 +349,19 @@ def impl(case):
                 return dict(view=v, hex=p.hex())
             except lib.HarnessError:
                 raise
+            except _ReadError as e:
+                return dict(err=e.name, msg=str(e)[:100], hex=p.hex(), size_after=e.size_after)
             except Exception as e:
                 return dict(err=type(e).__name__, msg=str(e)[:100], hex=p.hex())
     b, full = _file_bytes(case['spec'])
     p = b[:case['cut']]
     try:
-        v = camx.read_with_library(p)
+        v = _uamiv_read(p, case['mode']) if case.get('mode') else camx.read_with_library(p)
         return dict(view=v, hex=p.hex())
     except lib.HarnessError:
         raise
+    except _ReadError as e:
+        return dict(err=e.name, msg=str(e)[:100], hex=p.hex(), size_after=e.size_after)
     except Exception as e:
         return dict(err=type(e).__name__, msg=str(e)[:100], hex=p.hex())
 
@@ -432,6 +478,17 @@ def _oracle_bpch(case, res):
         return 'opening a prefix of %d bytes (mode %s) changed the file on disk to %d bytes' % (case['cut'], case.get('mode'), v['size_after'])
     nt = case['spec']['nt']
     k = len(v['tau0'])
+    if case.get('timeslice') is not None:
+        # the times asked for by number: those steps of the full file, or an error
+        ts = case['timeslice']
+        if v['tau0'] != [full['tau0'][i] for i in ts] or v['tau1'] != [full['tau1'][i] for i in ts]:
+            return 'prefix of %d bytes, timeslice=%s: time bounds %s, steps %s of the full file have %s' % (
+                case['cut'], ts, v['tau0'], ts, [full['tau0'][i] for i in ts])
+        for a, f_ in zip(v['vars'], full['vars']):
+            n = len(f_['bits']) // nt
+            if a['key'] == f_['key'] and a['bits'] != [w for i in ts for w in f_['bits'][n * i:n * (i + 1)]]:
+                return 'prefix of %d bytes, timeslice=%s: data of %s are not those of steps %s of the full file' % (case['cut'], ts, a['key'], ts)
+        return None
     if k > nt or v['tau0'] != full['tau0'][:k] or v['tau1'] != full['tau1'][:k]:
         return 'prefix of %d bytes presents time bounds %s' % (case['cut'], v['tau0'])
     if len(v['vars']) != len(full['vars']):
@@ -452,6 +509,10 @@ def _oracle_bpch(case, res):
 
 
 def oracle(case, res):
+    sz = res.get('size_after', (res.get('view') or {}).get('size_after') if isinstance(res.get('view'), dict) else None)
+    if sz is not None and sz != case['cut']:
+        return 'opening a prefix of %d bytes (mode %s)%s changed the file on disk to %d bytes' % (
+            case['cut'], case.get('mode'), ' raised, and' if 'err' in res else '', sz)
     if 'err' in res:
         return None
     fam = case.get('family', 'uamiv')
